@@ -170,7 +170,7 @@ def applyTables2node (T : Tables) (edition : Nat) (ddo : DDO) (n : Node) : DDO Ã
   let f := Desc.f n.desc
   let x := Desc.x n.desc
   let y := Desc.y n.desc
-  let flags := if x = 31 then n.flags ||| FLAG_CLASS31 else n.flags
+  let flags : Flags := if x = 31 then { n.flags with class31 := true } else n.flags
   let e0 := reassign n.desc (baseEnc T ddo n.desc)
   -- operators
   let (ddo1, e1, err1) :=
@@ -181,7 +181,7 @@ def applyTables2node (T : Tables) (edition : Nat) (ddo : DDO) (n : Node) : DDO Ã
         | none => e0
       (r.ddo, e, decide (r.rc < 0))
     else (ddo, e0, false)
-  let class31 := hasFlag flags FLAG_CLASS31
+  let class31 := flags.class31
   -- associated fields
   let isData := e1.type = .ccitt âˆ¨ e1.type = .numeric âˆ¨ e1.type = .codetable âˆ¨ e1.type = .flagtable
   let (e2, af) :=
